@@ -489,11 +489,27 @@ pub static T_REF: std::sync::atomic::AtomicU64 = std::sync::atomic::AtomicU64::n
 pub static T_PRISTINE: std::sync::atomic::AtomicU64 = std::sync::atomic::AtomicU64::new(0);
 pub static T_SIM: std::sync::atomic::AtomicU64 = std::sync::atomic::AtomicU64::new(0);
 
+/// Runs not simulated because the sequential build of a large input panics on its own (see `run_plan`).
+pub static SKIPPED_LARGE_SEQ_PANIC: std::sync::atomic::AtomicU64 = std::sync::atomic::AtomicU64::new(0);
+
+/// Above this many generators an input whose sequential build panics by itself is not simulated.
+pub const LARGE_N: usize = 200;
+
 pub fn run_plan(plan: &Plan, replay: Option<Vec<u32>>, watchdog_s: u64, check_ref_repeat: bool) -> (RunResult, Option<Violation>) {
     let t_ref = std::time::Instant::now();
     let refs = reference(plan);
     T_REF.fetch_add(t_ref.elapsed().as_micros() as u64, std::sync::atomic::Ordering::Relaxed);
     let last = plan.cases.len() - 1;
+    // The sequential loop stops at the first cell that panics; a parallel loop goes on with all the
+    // other cells before the panic reaches the caller. On an input the library cannot handle (a panic
+    // nobody injected; outside C09, both sides panic) the cost of the parallel call is therefore not
+    // bounded by the cost of the reference, and for a large degenerate input (exact predicates on
+    // ~1000 co-spherical generators) it is CPU-hours, which a time limit would then read as a hang.
+    // Such runs are not simulated (counted); small inputs still are.
+    if refs.iter().any(|(k, o)| k.2.is_none() && plan.cases[k.0].gens.len() > LARGE_N && matches!(o, Outcome::Panic(_))) {
+        SKIPPED_LARGE_SEQ_PANIC.fetch_add(1, std::sync::atomic::Ordering::Relaxed);
+        return (empty_result(), None);
+    }
     let first_use = |k: &RefKey| -> usize {
         plan.history
             .iter()
